@@ -115,6 +115,7 @@ func runC02(c *Ctx) error {
 	c.Rule = "random and template grammars without error alternatives that gocc generates without announcing conflicts; inputs = all short strings over the terminals, random sentences, prefix+terminal probes and mutants, fed by token name; verdict compared with Earley membership; non-trivial = distinct (grammar, token sequence) with at least one token"
 	c.Assumptions = []string{"M-EARLEY is a correct recogniser (cross-checked against M-LR1 on every conflict-free grammar of the run)", "token sequences are delivered through the Scanner interface by name (TokMap.Type)"}
 	jobs := genSynJobs(c.Rng, nG, "g", synFilter{actionMode: 0, flags: flagsZipAlternate})
+	jobs = append(jobs, corpusSynJobs(c, c.Rng, "k", synFilter{actionMode: 0, flags: flagsZipAlternate})...)
 	inRng := rand.New(rand.NewSource(c.Seed*31 + 2))
 	var refs []*parseRef
 	cov := newLRCoverage()
@@ -174,7 +175,11 @@ func runC03(c *Ctx) error {
 	nS := c.Pick(150, 600)
 	c.Rule = "conflict-free grammars with random recorder / default / empty actions ($i, $Ti, multi-digit indices, $Context); inputs = sentences, and for each a few placements of a failing action; the recorded event log (scans, action calls with argument identities, result) must equal the post-order evaluation by M-LR1; non-trivial = accepted sentence whose log contains at least one action call; distinct by (grammar, tokens, failing occurrence)"
 	c.Assumptions = []string{"M-LR1's reduction order equals the post-order of the unique parse tree of an unambiguous grammar", "token identity is observed as pointer identity of the *token.Token handed out by the harness scanner"}
-	jobs := genSynJobs(c.Rng, nG, "g", synFilter{class: func(k model.LRClass) bool { return k == model.ClassClean }, nonEmpty: true, actionMode: 0, flags: flagsZipAlternate})
+	jobs := genSynJobs(c.Rng, nG*2/3, "g", synFilter{class: func(k model.LRClass) bool { return k == model.ClassClean }, nonEmpty: true, actionMode: 0, flags: flagsZipAlternate})
+	// conflict-free grammars that also carry error alternatives: a failing action must stop Parse there too
+	jobs = append(jobs, genSynJobs(c.Rng, nG-len(jobs), "e", synFilter{class: func(k model.LRClass) bool { return k == model.ClassClean }, withErrors: true, nonEmpty: true, actionMode: 1, flags: flagsZipAlternate})...)
+	jobs = append(jobs, corpusSynJobs(c, c.Rng, "k", synFilter{class: func(k model.LRClass) bool { return k == model.ClassClean }, nonEmpty: true, actionMode: 0, flags: flagsZipAlternate})...)
+	jobs = append(jobs, corpusSynJobs(c, c.Rng, "ke", synFilter{class: func(k model.LRClass) bool { return k == model.ClassClean }, withErrors: true, nonEmpty: true, actionMode: 1, flags: flagsZipAlternate})...)
 	inRng := rand.New(rand.NewSource(c.Seed*37 + 3))
 	var refs []*parseRef
 	cov := newLRCoverage()
@@ -194,6 +199,9 @@ func runC03(c *Ctx) error {
 			calls := len(reductionsOf(m.Log))
 			if calls > 0 && i%2 == 0 {
 				refs = append(refs, &parseRef{j, s, inRng.Intn(calls)})
+				if calls > 2 && j.G.HasErrorAlts() {
+					refs = append(refs, &parseRef{j, s, inRng.Intn(calls - 1)})
+				}
 			}
 		}
 	}
@@ -254,6 +262,7 @@ func runC05(c *Ctx) error {
 			}
 			return []string{"-a"}
 		}})
+	jobs = append(jobs, corpusSynJobs(c, c.Rng, "k", synFilter{class: func(k model.LRClass) bool { return k == model.ClassConflict }, actionMode: 1, flags: func(i int) []string { return []string{"-a"} }})...)
 	inRng := rand.New(rand.NewSource(c.Seed*41 + 5))
 	var refs []*parseRef
 	conflictTotal := 0
@@ -318,6 +327,7 @@ func runC06(c *Ctx) error {
 	c.Rule = "conflict-free grammars without error alternatives whose nonterminals are all productive; inputs = non-sentences (prefix+terminal probes, mutants, truncated sentences, short strings); the error token identity/type/literal/position, the expected set and the absence of action calls after the offending token was scanned are judged against M-EARLEY; non-trivial = a failing parse with at least one token consumed before the offending one; distinct by (grammar, tokens)"
 	c.Assumptions = []string{"for a grammar whose nonterminals are all productive every non-empty Earley set is a viable prefix", "expected-token lists are compared as sets of names"}
 	jobs := genSynJobs(c.Rng, nG, "g", synFilter{class: func(k model.LRClass) bool { return k == model.ClassClean }, productive: true, nonEmpty: true, actionMode: 0, flags: flagsZipAlternate})
+	jobs = append(jobs, corpusSynJobs(c, c.Rng, "k", synFilter{class: func(k model.LRClass) bool { return k == model.ClassClean }, productive: true, nonEmpty: true, actionMode: 0, flags: flagsZipAlternate})...)
 	inRng := rand.New(rand.NewSource(c.Seed*43 + 7))
 	var refs []*parseRef
 	for _, j := range jobs {
@@ -409,11 +419,16 @@ func runC07(c *Ctx) error {
 	confl := genSynJobs(c.Rng, nG-len(clean), "h", synFilter{class: func(k model.LRClass) bool { return k == model.ClassConflict }, withErrors: true, ambiguous: true, actionMode: 1,
 		flags: func(i int) []string { return []string{"-a"} }})
 	jobs := append(clean, confl...)
+	jobs = append(jobs, corpusSynJobs(c, c.Rng, "k", synFilter{class: func(k model.LRClass) bool { return k != model.ClassAcceptReduce }, withErrors: true, actionMode: 1, flags: func(i int) []string { return []string{"-a"} }})...)
 	inRng := rand.New(rand.NewSource(c.Seed*47 + 11))
 	var refs []*parseRef
 	for _, j := range jobs {
 		for _, in := range model.InputPool(inRng, j.CFG, want, 4) {
 			refs = append(refs, &parseRef{j, in, -1})
+			if inRng.Intn(8) == 0 && len(in) > 1 {
+				// an action fails somewhere in the middle of a (possibly erroneous) input
+				refs = append(refs, &parseRef{j, in, inRng.Intn(len(in))})
+			}
 		}
 	}
 	return runParseBatch(c, jobs, "c07drv", refs, judgeC07, nil)
@@ -440,7 +455,23 @@ func strippedOf(j *SynJob) *SynJob {
 
 func judgeC07(c *Ctx, ref *parseRef, p *DPResult) (string, bool, interface{}) {
 	{
-		m := ref.job.LR.Parse(ref.toks, model.ParseOpts{FailAt: -1})
+		m := ref.job.LR.Parse(ref.toks, model.ParseOpts{FailAt: ref.fail})
+		if ref.fail >= 0 {
+			exp := map[string]interface{}{"log": m.Log, "custom_error": m.Custom}
+			if m.StepsExceeded || !m.Custom {
+				return "", false, exp // the chosen occurrence does not exist in this parse: covered by the fail=-1 twin
+			}
+			c.Add("inputs_with_failing_action", 1)
+			switch {
+			case p.End == "panic" || p.End == "abort":
+				return "Parse " + p.End + ": " + p.Msg, true, exp
+			case p.End != "err" || p.Custom != 1:
+				return "an action returned an error but Parse did not stop and return it", true, exp
+			case p.Log != m.Log:
+				return "event log up to the failing action differs from the reference (further actions ran, or recovery was attempted on an action error)", true, exp
+			}
+			return "", true, exp
+		}
 		exp := map[string]interface{}{"log": m.Log, "accepted": m.Accepted, "error_token": m.ErrTok, "recoveries": m.Recoveries}
 		if p.End == "panic" {
 			return "Parse panicked: " + p.Msg, true, exp
